@@ -249,6 +249,40 @@ func c04(c *Ctx) {
 					}
 				}
 			}
+			// the re-slice leaves something to deliver: it happens only where position.Reply < len(batch) is known (slicing
+			// at len gives an empty batch, whose [0] is then read)
+			for _, v := range g.Nodes() {
+				if !reslice(v.ID) {
+					continue
+				}
+				inRange := false
+				for _, fct := range g.FactsAt(v.ID) {
+					be, ok := ast.Unparen(fct.Expr).(*ast.BinaryExpr)
+					if !ok || fct.Tag != nil {
+						continue
+					}
+					isLen := func(e ast.Expr) bool {
+						call, ok := ast.Unparen(e).(*ast.CallExpr)
+						if !ok || astx.Builtin(info, call) != "len" {
+							return false
+						}
+						id, ok := ast.Unparen(call.Args[0]).(*ast.Ident)
+						return ok && astx.Obj(info, id) == res
+					}
+					switch {
+					case isPosField(be.X, "Reply") && isLen(be.Y):
+						if (be.Op == token.LSS && fct.Val) || (be.Op == token.GEQ && !fct.Val) {
+							inRange = true
+						}
+					case isLen(be.X) && isPosField(be.Y, "Reply"):
+						if (be.Op == token.GTR && fct.Val) || (be.Op == token.LEQ && !fct.Val) {
+							inRange = true
+						}
+					}
+				}
+				r.Check(inRange, "C04.P3", gm.Name(), "the re-slice leaves at least one message", c.P.Pos(g.V[v.ID].Node.Pos()), "dominated by <position>.Reply < len(<batch>)",
+					"the batch is re-sliced at position.Reply where that may equal (or exceed) its length: the empty remainder is then indexed with [0] — the reader goroutine panics and the process exits — or sent as an empty batch")
+			}
 			r.Check(!bad, "C04.P3", gm.Name(), "the re-slice uses the position the client sent", c.P.Pos(next.Pos()), "no advance of the position between GetNext and the re-slice", "the position is advanced to the batch before the batch is re-sliced at position.Reply: the slice uses the new reply number")
 			r.Check(n >= 1, "C04.P3", gm.Name(), "follow-loop sends found", c.P.Pos(gm.Node().Pos()), itoa(n), "no send of a GetNext result")
 		}
@@ -287,6 +321,65 @@ func c04(c *Ctx) {
 				r.Check(okFilter, "C04.P4", hgm.Name(), "only messages addressed to the session (and pings) are written", c.P.Pos(call.Pos()), "every path to Encode passes `Type == Ping` or `InterestingFor[<session>.Id]`",
 					"a message is written to the connection without the per-session filter: the client receives lines addressed to other sessions, or loses its own")
 			}
+		}
+		// P4b: nothing addressed to the session is skipped: every edge that skips a message (leads back to the next message
+		// without passing Encode) implies !InterestingFor[<session>.Id]
+		{
+			encV := map[int]bool{}
+			for _, v := range hg.Nodes() {
+				if v.Node == nil {
+					continue
+				}
+				for _, call := range astx.Calls(v.Node, false) {
+					if se, ok := ast.Unparen(call.Fun).(*ast.SelectorExpr); ok && se.Sel.Name == "Encode" {
+						if fn := astx.Callee(hi, call); fn != nil && fn.Pkg() != nil && fn.Pkg().Path() == "encoding/json" {
+							encV[v.ID] = true
+						}
+					}
+				}
+			}
+			isIF := func(e ast.Expr) bool {
+				ie, ok := ast.Unparen(e).(*ast.IndexExpr)
+				if !ok {
+					return false
+				}
+				se, ok := ast.Unparen(ie.X).(*ast.SelectorExpr)
+				return ok && se.Sel.Name == "InterestingFor"
+			}
+			nSkip := 0
+			for _, v := range hg.V {
+				for _, e := range v.Succ {
+					if e.Cond == nil || e.Tag != nil {
+						continue
+					}
+					mentions := false
+					ast.Inspect(e.Cond, func(m ast.Node) bool {
+						if ex, ok := m.(ast.Expr); ok && isIF(ex) {
+							mentions = true
+						}
+						return true
+					})
+					if !mentions {
+						continue
+					}
+					// does this edge lead around the Encode? (the Encode is not reachable before the next test of the filter)
+					reach := hg.Reach(e.To, func(x int) bool { return x == e.From }, nil)
+					hits := encV[e.To]
+					for ev := range encV {
+						if reach[ev] {
+							hits = true
+						}
+					}
+					if hits {
+						continue
+					}
+					nSkip++
+					okSkip := implied(c.clausesOf(hi, hgm.Node(), e.Cond, e.Val, 0), func(l lit) bool { return isIF(l.E) && !l.Pos })
+					r.Check(okSkip, "C04.P4", hgm.Name(), "only messages not addressed to the session are skipped", c.P.Pos(e.Cond.Pos()), "the skipping edge implies !InterestingFor[<session>.Id]",
+						"a message can be skipped although it is addressed to this session (the filter condition is weaker than 'not a ping and not for this session'): the client's stream has holes")
+				}
+			}
+			r.Check(nSkip >= 1, "C04.P4", hgm.Name(), "skipping edge found", c.P.Pos(hgm.Node().Pos()), itoa(nSkip), "no edge that skips a message was found: filter shape not recognised")
 		}
 		r.Check(n >= 1, "C04.P4", hgm.Name(), "stream writes found", c.P.Pos(hgm.Node().Pos()), itoa(n), "no json Encode of a message in handleGetMessages")
 	}
@@ -381,6 +474,93 @@ func c04(c *Ctx) {
 				r.Check(bad == "", "C04.P5", hgm.Name(), "the position is the session id or the parsed lastseen, nothing else", c.P.Pos(gs.Pos()), "definitions: <session id> | robust.Id{Id, Reply}",
 					"the resume position is rewritten after parsing ("+bad+"): the reader starts somewhere else than where the client stopped, so messages are delivered twice or skipped")
 			}
+		}
+		// P5c: the parsed position is used exactly when a lastseen value was given: the literal is built on an edge that
+		// implies ls != "" and ls != "0.0", and the edge that skips it implies ls == "" or ls == "0.0"
+		{
+			hg := c.Graph(hgm)
+			isLsCmp := func(e ast.Expr, want string) (bool, token.Token) {
+				be, ok := ast.Unparen(e).(*ast.BinaryExpr)
+				if !ok || (be.Op != token.EQL && be.Op != token.NEQ) {
+					return false, 0
+				}
+				for _, pr := range [][2]ast.Expr{{be.X, be.Y}, {be.Y, be.X}} {
+					if s, ok := astx.ConstString(hi, pr[1]); ok && s == want {
+						// the other side derives from r.FormValue("lastseen")
+						if d := uniqueDef(hi, hgm.Node(), pr[0]); d != nil {
+							if call, ok := ast.Unparen(d).(*ast.CallExpr); ok && len(call.Args) == 1 {
+								if a, ok := astx.ConstString(hi, call.Args[0]); ok && a == "lastseen" {
+									return true, be.Op
+								}
+							}
+						}
+					}
+				}
+				return false, 0
+			}
+			nGate := 0
+			for _, v := range hg.V {
+				for _, e := range v.Succ {
+					if e.Cond == nil || e.Tag != nil {
+						continue
+					}
+					mentions := false
+					ast.Inspect(e.Cond, func(m ast.Node) bool {
+						if ex, ok := m.(ast.Expr); ok {
+							if ok1, _ := isLsCmp(ex, ""); ok1 {
+								mentions = true
+							}
+						}
+						return true
+					})
+					if !mentions {
+						continue
+					}
+					nGate++
+					cls := c.clausesOf(hi, hgm.Node(), e.Cond, e.Val, 0)
+					given := func(want string) bool {
+						return implied(cls, func(l lit) bool {
+							ok, op := isLsCmp(l.E, want)
+							return ok && ((op == token.NEQ && l.Pos) || (op == token.EQL && !l.Pos))
+						})
+					}
+					absent := implied(cls, func(l lit) bool {
+						for _, want := range []string{"", "0.0"} {
+							if ok, op := isLsCmp(l.E, want); ok && ((op == token.EQL && l.Pos) || (op == token.NEQ && !l.Pos)) {
+								return true
+							}
+						}
+						return false
+					})
+					// which side builds the literal?
+					builds := false
+					reach := hg.Reach(e.To, nil, nil)
+					for _, cl := range compositeLitsOf(hi, hgm.Body(), pathRobust, "Id") {
+						if lv := hg.VertexOf(cl); lv >= 0 && (reach[lv] || lv == e.To) && litField(cl, "Reply") != nil {
+							builds = true
+						}
+					}
+					other := false
+					for _, e2 := range v.Succ {
+						if e2 != e {
+							r2 := hg.Reach(e2.To, nil, nil)
+							for _, cl := range compositeLitsOf(hi, hgm.Body(), pathRobust, "Id") {
+								if lv := hg.VertexOf(cl); lv >= 0 && (r2[lv] || lv == e2.To) && litField(cl, "Reply") != nil {
+									other = true
+								}
+							}
+						}
+					}
+					if builds && !other {
+						r.Check(given("") && given("0.0"), "C04.P5", hgm.Name(), "the parsed position is used only when lastseen was given", c.P.Pos(e.Cond.Pos()), `edge implies ls != "" and ls != "0.0"`,
+							"the lastseen parameter is parsed although it is empty or 0.0 (malformed-value error for fresh clients), or the condition is inverted")
+					} else if !builds {
+						r.Check(absent, "C04.P5", hgm.Name(), "a given lastseen is never ignored", c.P.Pos(e.Cond.Pos()), `the edge around the parse implies ls == "" or ls == "0.0"`,
+							"a request that names a resume position can take the path that ignores it: the client is served from the start of its session again and receives everything twice")
+					}
+				}
+			}
+			r.Check(nGate >= 1, "C04.P5", hgm.Name(), "lastseen gate found", c.P.Pos(hgm.Node().Pos()), itoa(nGate), "no test of the lastseen parameter found in handleGetMessages")
 		}
 		r.Check(n >= 1, "C04.P5", hgm.Name(), "position literal found", c.P.Pos(hgm.Node().Pos()), itoa(n), "no robust.Id{Id:…, Reply:…} built in handleGetMessages")
 		// parseLastSeen: result k is parsed from parts[k]
